@@ -92,6 +92,10 @@ package raft
 //@ iface StateStorage.State() (term, vote, err)
 //@   ensures err == nil ==> term == persTerm && vote == persVote
 
+//@ iface Transport.SendRequestVote(address, request) (response, err)
+//@ iface Transport.SendAppendEntries(address, request) (response, err)
+//@ iface Transport.SendInstallSnapshot(address, request) (response, err)
+
 //@ iface SnapshotFile.Close() (err)
 //@   ensures ioOK ==> err == nil
 //@ iface SnapshotFile.Discard() (err)
@@ -110,6 +114,7 @@ package raft
 // ===========================================================================================
 
 //@ inv [I0] 0 <= Lfirst && Lfirst <= Llast
+//@ inv [Istate] r.state <= Shutdown
 //@ inv [I1] r.lastApplied <= r.commitIndex
 //@ inv [I2] r.commitIndex <= Llast
 //@ inv [I3] Lfirst <= r.lastIncludedIndex
@@ -292,3 +297,125 @@ package raft
 //@   flags inline lockheld
 //@   loop range r.configuration.Members invariant [I6b] forall fid string :: fid in r.followers ==> r.followers[fid] != nil
 //@   loop range next.Members invariant [I6b] forall fid string :: fid in r.followers ==> r.followers[fid] != nil
+
+// ===========================================================================================
+// State transitions and elections (C02, C08, C16)
+// ===========================================================================================
+
+//@ func Raft.becomeFollower
+//@   flags inline lockheld
+//@   requires r.stateStorage != nil && r.operationManager != nil && r.followers != nil && r.logger != nil
+//@   requires forall id string :: id in r.followers ==> r.followers[id] != nil
+//@   requires term >= r.currentTerm
+//@   ensures [state] r.state == Follower && r.currentTerm == term && r.leaderID == leaderID
+//@   ensures [G2] term == old(r.currentTerm) && old(r.votedFor) != "" ==> r.votedFor == old(r.votedFor)
+//@   ensures [vote-cleared] term > old(r.currentTerm) ==> r.votedFor == ""
+//@   ensures [I7] persTerm == r.currentTerm && persVote == r.votedFor
+//@   ensures [tables-empty] r.operationManager != nil && card(dom(r.operationManager.pendingReplicated)) == 0 && card(dom(r.operationManager.pendingReadOnly)) == 0
+//@   ensures [snapshot-reset] r.snapshot == nil
+
+//@ func Raft.becomeCandidate
+//@   flags inline lockheld
+//@   requires r.stateStorage != nil && r.logger != nil
+//@   ensures [state] r.state == Candidate && r.currentTerm == old(r.currentTerm) + 1 && r.votedFor == r.id
+//@   ensures [I7] persTerm == r.currentTerm && persVote == r.votedFor
+
+//@ func Raft.becomePreCandidate
+//@   flags inline lockheld
+//@   requires r.logger != nil
+//@   ensures [frame] r.state == PreCandidate && r.currentTerm == old(r.currentTerm) && r.votedFor == old(r.votedFor) && persTerm == old(persTerm) && persVote == old(persVote) && r.commitIndex == old(r.commitIndex) && Llast == old(Llast)
+
+//@ func Raft.stepdown
+//@   flags inline lockheld
+//@   requires r.operationManager != nil && r.logger != nil
+//@   ensures [frame] r.state == Follower && r.currentTerm == old(r.currentTerm) && r.votedFor == old(r.votedFor) && persTerm == old(persTerm) && persVote == old(persVote)
+
+//@ func Raft.resetSnapshotFiles
+//@   flags inline lockheld
+
+//@ func operationManager.notifyLostLeaderShip
+//@   flags inline
+
+//@ spec singleMember(r) = len(r.configuration.Members) == 1 && r.configuration.IsVoter[r.id]
+
+//@ func Raft.election
+//@   flags inline lockheld
+//@   requires r.configuration != nil && r.followers != nil && r.stateStorage != nil && r.operationManager != nil && r.log != nil && r.logger != nil
+//@   requires r.operationManager.leaderLease != nil
+//@   requires forall id string :: id in r.followers ==> r.followers[id] != nil
+//@   requires persTerm == r.currentTerm && persVote == r.votedFor && 0 <= Lfirst && Lfirst <= Llast && r.lastContact <= now && r.state <= Shutdown
+//@   ensures [voter-only] !old(r.configuration.IsVoter[r.id]) ==> r.state == old(r.state) && r.currentTerm == old(r.currentTerm) && r.votedFor == old(r.votedFor)
+//@   ensures [quiet] now - old(r.lastContact) < r.options.electionTimeout ==> r.state == old(r.state) && r.currentTerm == old(r.currentTerm) && r.votedFor == old(r.votedFor)
+//@   ensures [leader-keeps] old(r.state) == Leader || old(r.state) == Shutdown ==> r.state == old(r.state) && r.currentTerm == old(r.currentTerm)
+//@   ensures [term-bump] r.currentTerm != old(r.currentTerm) ==> r.currentTerm == old(r.currentTerm) + 1 && r.votedFor == r.id && (old(r.state) == Candidate || old(singleMember(r)))
+//@   ensures [I7] persTerm == r.currentTerm && persVote == r.votedFor
+//@   ensures [G2] r.currentTerm == old(r.currentTerm) && old(r.votedFor) != "" ==> r.votedFor == old(r.votedFor)
+//@   ensures [leader-entry] r.state == Leader && old(r.state) != Leader ==> r.votedFor == r.id && r.currentTerm == old(r.currentTerm) + 1
+//@   ensures [leader-entry-single] r.state == Leader && old(r.state) != Leader ==> old(singleMember(r))
+
+//@ func Raft.sendRequestVoteToPeers
+//@   flags inline lockheld
+
+//@ func Raft.sendRequestVote
+//@   requires votes != nil
+//@   release s1 [truthful] request.CandidateID == r.id && request.LastLogIndex == Llast && request.LastLogTerm == Lterm[Llast] && request.Prevote == prevote && (prevote ==> request.Term == r.currentTerm + 1) && (!prevote ==> request.Term == r.currentTerm)
+//@   release s1 [voter] r.configuration.IsVoter[id] && r.configuration.IsVoter[r.id]
+//@   at before-assign *votes assert [count] response.VoteGranted && err == nil && r.currentTerm <= request.Term && request.Prevote == prevote
+//@   at assign r.state assert [candidate-after-prevote] cnt(dom(r.configuration.IsVoter), vals(r.configuration.IsVoter)) < 2 * *votes
+//@   at call r.becomeLeader assert [becomeLeader.entry] !prevote && r.state == Candidate && request.Term == r.currentTerm && 2 * *votes > cntVoters(r.configuration)
+
+//@ func Raft.becomeLeader
+//@   flags inline lockheld
+//@   requires r.configuration != nil && r.followers != nil && r.log != nil && r.operationManager != nil && r.logger != nil
+//@   requires forall id string :: id in r.followers ==> r.followers[id] != nil
+//@   ensures [state] r.state == Leader && r.currentTerm == old(r.currentTerm) && r.votedFor == old(r.votedFor)
+//@   ensures [noop] Llast == old(Llast) + 1 && Lterm[Llast] == r.currentTerm && Ltyp[Llast] == NoOpEntry && forall i int :: i <= old(Llast) ==> Lterm[i] == old(Lterm[i]) && Ltyp[i] == old(Ltyp[i]) && Ldata[i] == old(Ldata[i])
+//@   ensures [reset] forall fid string :: fid in r.followers ==> r.followers[fid].matchIndex == 0
+//@   loop range r.followers invariant [reset] forall fid string :: fid in visited ==> r.followers[fid].matchIndex == 0
+
+//@ func Raft.sendAppendEntriesToPeers
+//@   flags inline lockheld
+//@ func Raft.tryApplyReadOnlyOperations
+//@   flags inline lockheld
+//@ func operationManager.markAsVerified
+//@   flags inline
+
+//@ func Raft.electionLoop
+
+// ===========================================================================================
+// Restore (C02, C08, C14)
+// ===========================================================================================
+
+//@ iface Log.Open() (err)
+//@   modifies Lfirst, Llast, Lterm, Ltyp, Ldata
+//@ iface Log.Replay() (err)
+//@   modifies Lfirst, Llast, Lterm, Ltyp, Ldata
+//@   ensures err == nil ==> 0 <= Lfirst && Lfirst <= Llast
+//@ iface Log.Close() (err)
+//@ iface SnapshotStorage.SnapshotFile() (file, err)
+//@ iface SnapshotStorage.NewSnapshotFile(lastIncludedIndex, lastIncludedTerm, configuration) (file, err)
+//@   ensures ioOK ==> err == nil
+//@   ensures err == nil ==> file != nil
+//@ iface SnapshotFile.Metadata() (md)
+//@ iface StateMachine.Restore(snapshotReader) (err)
+//@ iface StateMachine.Snapshot(snapshotWriter) (err)
+//@ iface StateMachine.NeedSnapshot(logSize) (result)
+//@ iface StateMachine.Apply(operation) (result)
+//@ iface Transport.DecodeConfiguration(data) (configuration, err)
+//@   ensures ioOK ==> err == nil
+//@   ensures err == nil ==> configuration.Members != nil && configuration.IsVoter != nil
+//@ iface Transport.EncodeConfiguration(configuration) (data, err)
+//@   ensures ioOK ==> err == nil
+//@ iface Transport.Address() (result)
+//@ iface Transport.Run() (err)
+//@ iface Transport.Shutdown() (err)
+//@ iface Transport.RegisterAppendEntriesHandler(handler) ()
+//@ iface Transport.RegisterRequestVoteHandler(handler) ()
+//@ iface Transport.RegsiterInstallSnapshotHandler(handler) ()
+
+//@ func Configuration.Clone
+//@   flags inline
+
+//@ func Raft.restore
+//@   requires r.log != nil && r.stateStorage != nil && r.snapshotStorage != nil && r.transport != nil && r.fsm != nil
+//@   ensures [term-vote] err == nil ==> r.currentTerm == persTerm && r.votedFor == persVote
